@@ -447,6 +447,44 @@ func (x *Exec) store(st *State, loc *Loc, t types.Type, v Val) {
 	}
 }
 
+// zeroGhost initialises the ghost fields of a freshly allocated struct (and of the structs embedded
+// in it by value) to their zero values.
+func (x *Exec) zeroGhost(st *State, addr string, t types.Type) {
+	s, ok := t.Underlying().(*types.Struct)
+	if !ok {
+		return
+	}
+	prefix := typeKey(t) + "."
+	for k, g := range x.eng.ghostFlds {
+		if !strings.HasPrefix(k, prefix) || strings.Contains(k[len(prefix):], ".") {
+			continue
+		}
+		gt, err := x.eng.resolveSpecType(g.Pkg, g.Type)
+		if err != nil {
+			continue
+		}
+		sort := specSort(gt)
+		z := "0"
+		switch sort {
+		case "Bool":
+			z = "false"
+		case "Int":
+			z = "0"
+		default:
+			continue
+		}
+		name := "H$" + typeKey(t) + "$" + g.Name
+		h := x.heap(st, name, arrSort(sort))
+		x.setHeap(st, name, arrSort(sort), sx("store", h, addr, z))
+	}
+	for i := 0; i < s.NumFields(); i++ {
+		f := s.Field(i)
+		if kindOf(f.Type()) == KStruct {
+			x.zeroGhost(st, x.structAddr(&Loc{Kind: LField, Base: fieldHeap(t, f), Ref: addr}), f.Type())
+		}
+	}
+}
+
 func (x *Exec) storeStruct(st *State, addr string, t types.Type, v Val) {
 	s := t.Underlying().(*types.Struct)
 	sv, ok := v.(StructV)
@@ -1077,6 +1115,7 @@ func (x *Exec) instr(fr *Frame, b *ssa.BasicBlock, st *State, reach string, ins 
 		sc := Sc{T: r, S: "Int"}
 		if kindOf(et) == KStruct {
 			x.storeStruct(st, r, et, x.zeroVal(et))
+			x.zeroGhost(st, r, et)
 		} else if kindOf(et) == KArray {
 			// backing array object: elements addressed through E$ heaps; contents unconstrained
 		} else {
@@ -1360,8 +1399,19 @@ func (x *Exec) unop(fr *Frame, st *State, reach string, i *ssa.UnOp) {
 			x.set(fr, i, I(sx("-", sx("-", v.T), "1")))
 		}
 	case token.ARROW:
-		// channel receive: havoc (sound for a channel nothing is known about)
+		// channel receive: havoc (sound for a channel nothing is known about); successful receives are
+		// counted in the ghost G$recvtotal
 		v := x.havocVal(i.Type(), i.Name())
+		cur := x.heap(st, "G$recvtotal", "Int")
+		inc := "1"
+		if i.CommaOk {
+			if tv, ok := v.(TupleV); ok && len(tv.E) == 2 {
+				if okv, ok := tv.E[1].(Sc); ok {
+					inc = ite(okv.T, "1", "0")
+				}
+			}
+		}
+		x.setHeap(st, "G$recvtotal", "Int", sx("+", cur, inc))
 		x.set(fr, i, v)
 	default:
 		x.warn("unop %s: havoc", i.Op)
@@ -1482,10 +1532,20 @@ func (x *Exec) binop(fr *Frame, reach string, i *ssa.BinOp) Val {
 		if as.S == "Bool" {
 			return B(and(as.T, bs.T))
 		}
+		if a, ok1 := litInt(as.T); ok1 {
+			if b, ok2 := litInt(bs.T); ok2 {
+				return I(num(a & b))
+			}
+		}
 		return x.uninterpBit("bvand", rt, as.T, bs.T)
 	case token.OR:
 		if as.S == "Bool" {
 			return B(or(as.T, bs.T))
+		}
+		if a, ok1 := litInt(as.T); ok1 {
+			if b, ok2 := litInt(bs.T); ok2 {
+				return I(num(a | b))
+			}
 		}
 		return x.uninterpBit("bvor", rt, as.T, bs.T)
 	case token.XOR:
@@ -1940,4 +2000,12 @@ func (x *Exec) assumeAllocated(guard string, st *State, v Val) {
 			x.assumeAllocated(guard, st, f)
 		}
 	}
+}
+
+func litInt(s string) (int64, bool) {
+	var n int64
+	if _, err := fmt.Sscanf(s, "%d", &n); err == nil && fmt.Sprint(n) == s && n >= 0 {
+		return n, true
+	}
+	return 0, false
 }
